@@ -39,6 +39,11 @@ ASSUMPTIONS = [
     "multi-cycle run with burnSteps 0) must make operate() raise ValueError; a power-fraction list of the wrong length "
     "is only generated when the run has a step to use it on",
     "hooks return None except the BOC hook of the halting interface (returns True)",
+    "enabled/bolForce are set through addInterface arguments and through Interface.enabled(flag)/bolForce(flag) on the "
+    "object before or after it is added (also on an object that was attached with other flags and removed again); the "
+    "expectation uses the final documented state (schedule.final_flags).  An object that is disabled at that moment is "
+    "never attached with enabled=True (docstring 'If enabled, will run at all hooks' vs. implementation: not asserted), and "
+    "reverseAtEOL is only given through the addInterface argument of the final attachment",
 ]
 
 # Shapes that trigger candidate genuine defects are avoided by construction (see the final report of C15):
@@ -221,6 +226,8 @@ def _biased(p_true_in_8):
 def run_strategy(draw, tier="quick"):
     hist = draw(history_strategy(max_cycles=4, max_steps=3, allow_invalid=True))
     names = draw(st.permutations(POOL))[: draw(st.integers(1, 6))]
+    flag_pair = st.fixed_dictionaries({"enabled": st.booleans(), "bolForce": st.booleans()})
+    flag_call = st.tuples(st.sampled_from(["enabled", "bolForce"]), st.booleans()).map(list)
     stack = []
     for nm in names:
         stack.append({
@@ -235,6 +242,11 @@ def run_strategy(draw, tier="quick"):
             "tol": draw(st.sampled_from([1e-6, 1e-3, 0.5])),
             "valueKind": draw(st.sampled_from(VALUE_KINDS)),
             "script": draw(st.lists(_biased(5), min_size=1, max_size=5)),
+            # the two flags can also be set on the object itself, before or after it is added, and the object may have
+            # been attached with other flags before ("enabled"/"bolForce" above are the addInterface arguments)
+            "reuse": draw(st.one_of(st.none(), st.none(), st.none(), st.none(), st.none(), flag_pair)),
+            "pre": draw(st.one_of(st.just([]), st.just([]), st.just([]), st.lists(flag_call, min_size=1, max_size=2))),
+            "post": draw(st.one_of(st.just([]), st.just([]), st.lists(flag_call, min_size=1, max_size=2))),
         })
     restart = draw(_biased(4))
     case = {
@@ -299,6 +311,11 @@ def normalise(case):
     for e in case["stack"]:
         e = dict(e)
         e["function"] = ("fn_" + e["name"]) if e["hasFunction"] else None
+        # addInterface arguments, and the flags the interface finally has (what the reference scheduler works with)
+        e["addEnabled"], e["addBolForce"] = e["enabled"], e["bolForce"]
+        if e["addEnabled"] and not sm.flags_before_add(e):
+            e["addEnabled"] = False  # (an object disabled beforehand is never attached with enabled=True, see final_flags)
+        e["enabled"], e["bolForce"] = sm.final_flags(e)
         entries.append(e)
     if cp["on"] and not any(e["name"] == "database" for e in entries):
         e = entries[cp["dbAt"] % len(entries)]
@@ -653,8 +670,18 @@ def run_execute(case):
 
     def prepare():
         o = make_operator(cs, r)
-        for rec, e in make_recorders(r, cs, norm, trace):
-            o.addInterface(rec, index=e["index"], reverseAtEOL=e["reverseAtEOL"], enabled=e["enabled"], bolForce=e["bolForce"])
+        recs = make_recorders(r, cs, norm, trace)
+        for rec, e in recs:
+            if e.get("reuse"):
+                o.addInterface(rec, enabled=e["reuse"]["enabled"], bolForce=e["reuse"]["bolForce"])
+                o.removeInterface(rec)
+            for method, flag in e.get("pre", []):
+                getattr(rec, method)(flag)
+            o.addInterface(rec, index=e["index"], reverseAtEOL=e["reverseAtEOL"], enabled=e["addEnabled"],
+                           bolForce=e["addBolForce"])
+        for rec, e in recs:
+            for method, flag in e.get("post", []):
+                getattr(rec, method)(flag)
         if cfg["start"]["via"] == "preset":
             r.p.cycle = cfg["start"]["cycle"]
             r.p.timeNode = cfg["start"]["node"]
@@ -686,6 +713,17 @@ def run_execute(case):
     got_order = [i.name for i in o.getInterfaces()]
     out.check(got_order == norm["order"], "stack/order-after-addInterface",
               lambda: "stack %s, expected %s" % (got_order, norm["order"]))
+    byname = {e["name"]: e for e in cfg["stack"]}
+    for i in o.getInterfaces():
+        e = byname.get(i.name)
+        if e is None:
+            continue
+        got = (bool(i.enabled()), bool(i.bolForce()))
+        if not out.check(got == (e["enabled"], e["bolForce"]), "stack/enabled-bolForce-flags",
+                         lambda: "%s: (enabled, bolForce) = %s after reuse=%r pre=%r addInterface(enabled=%r, bolForce=%r) post=%r; "
+                                 "the documented calls give %s" % (i.name, got, e.get("reuse"), e.get("pre", []), e["addEnabled"],
+                                                                  e["addBolForce"], e.get("post", []), (e["enabled"], e["bolForce"]))):
+            return out  # the trace would only repeat this
 
     segs, sched = expected_segments(norm)
     o.operate()
@@ -789,6 +827,18 @@ def run_execute(case):
         out.label("eol:two-reversed")
     if any((not e["enabled"]) and e["bolForce"] for e in cfg["stack"]):
         out.label("bolForce-on-disabled")
+    for e in cfg["stack"]:
+        if e.get("reuse"):
+            out.label("flags:object-reused")
+        if e.get("pre"):
+            out.label("flags:set-before-add")
+        if e.get("post"):
+            out.label("flags:set-after-add")
+        if e["addEnabled"] and e["addBolForce"] and not e["enabled"] and e["bolForce"]:
+            out.label("flags:added-enabled-forced-then-disabled")
+        if (not e["enabled"]) and (not e["bolForce"]) and any(m == "bolForce" and f for m, f in e.get("pre", [])) \
+                or (not e["enabled"] and not e["bolForce"] and e.get("reuse") and e["reuse"]["bolForce"]):
+            out.label("flags:stale-bolForce-cleared-by-add")
     if any(d["excluded"] for d in norm["direct"]):
         out.label("direct:excluded")
     return out
@@ -912,7 +962,8 @@ def numbering_enum_execute(case):
 PARTS = [
     Part("run", run_execute, strategy=run_strategy, budget={"quick": 800, "thorough": 30000}, procs={"quick": 8, "thorough": 16},
          rule="Hypothesis: cycle history (simple or detailed input, repeat syntax, zero-step cycles, 1/8 documented-invalid), restart "
-              "point (preset or set by the first BOL hook), 1-6 recording interfaces (insert index, enabled, bolForce, reverseAtEOL, "
+              "point (preset or set by the first BOL hook), 1-6 recording interfaces (insert index, enabled/bolForce via addInterface "
+              "arguments and/or calls on the object before/after adding and on re-added objects, reverseAtEOL, "
               "deferred, function/coupler with scripted convergence), deferral cycle, BOC halt, tight coupling (cap, skipped cycles), "
               "then up to 3 direct interactAll* calls with exclusion lists; non-trivial = trace equal AND >= 2 cycles run AND a "
               "non-default interface attribute or coupling iterations; oracle: event list of the reference scheduler, exact "
